@@ -149,11 +149,16 @@ Qed.
 Definition no_divergence_P (cfg : pcfg) (tbl : list (pread * rresult)) (items : list pcmd) : Prop :=
   forall c, In c items -> sig_k1 c = false /\ k2_cond (facts_single (table_reader tbl) cfg c) = false.
 
-Lemma no_divergence_spec cfg tbl items : no_divergence cfg tbl items = true -> no_divergence_P cfg tbl items.
+Definition no_k3_P (cfg : pcfg) (tbl : list (pread * rresult)) (items : list pcmd) : Prop :=
+  forall c, In c items -> k3_cond (facts_single (table_reader tbl) cfg c) = false.
+
+Lemma no_divergence_spec cfg tbl items : no_divergence cfg tbl items = true ->
+  no_divergence_P cfg tbl items /\ no_k3_P cfg tbl items.
 Proof.
-  unfold no_divergence, no_divergence_P. intros H c Hc. rewrite forallb_forall in H.
-  specialize (H c Hc). apply andb_true_iff in H. destruct H as [H1 H2].
-  apply negb_true_iff in H1. apply negb_true_iff in H2. split; assumption.
+  unfold no_divergence, no_divergence_P, no_k3_P. intros H. rewrite forallb_forall in H.
+  split; intros c Hc; specialize (H c Hc); cbv zeta in H;
+    apply andb_true_iff in H; destruct H as [H H3]; apply andb_true_iff in H; destruct H as [H1 H2];
+    apply negb_true_iff in H1; apply negb_true_iff in H2; apply negb_true_iff in H3; [split|]; assumption.
 Qed.
 
 Lemma batch_each_agrees rd cfg : forall items,
@@ -185,11 +190,15 @@ Proof.
   unfold spec_obs, single_outcome. rewrite <- single_is_first_failing. reflexivity.
 Qed.
 
+Lemma obs_of_fields ch r : o_reason (obs_of (ch, r)) = fst r /\ o_err (obs_of (ch, r)) = errc_code (snd r).
+Proof. split; reflexivity. Qed.
+
 Lemma item_code_uniform cfg tbl items pre cmd rest :
   items = pre ++ cmd :: rest ->
+  k3_cond (facts_single (table_reader tbl) cfg cmd) = false ->
   item_code (uniform_case cfg tbl items (single_obs cfg tbl items)) (table_reader tbl) (length pre) cmd = 0.
 Proof.
-  intro Hitems. unfold item_code.
+  intros Hitems Hk3. unfold item_code.
   rewrite !path_obs_uniform by (cbv; tauto).
   assert (Hn : nth_obs (single_obs cfg tbl items) (length pre)
                = Some (obs_of (single_outcome (table_reader tbl) cfg cmd))).
@@ -198,17 +207,21 @@ Proof.
   rewrite Hn. cbn [forallb]. rewrite !path_obs_uniform by (cbv; tauto). rewrite Hn.
   rewrite obs_eqb_refl. cbn [andb negb].
   cbn [k_cfg uniform_case]. rewrite spec_obs_is_single, obs_eqb_refl. cbn [negb].
-  reflexivity.
+  change (0 =? 1) with false. cbn [orb]. change (0 <? N.max 0 0) with false. cbv iota.
+  unfold single_outcome.
+  destruct (obs_of_fields (single_out cmd) (checkSendPermission (facts_single (table_reader tbl) cfg cmd))) as [-> ->].
+  unfold k3_cond, decide_single in Hk3. rewrite Hk3. reflexivity.
 Qed.
 
-Lemma item_codes_uniform cfg tbl items : forall rest pre,
+Lemma item_codes_uniform cfg tbl items : no_k3_P cfg tbl items -> forall rest pre,
   items = pre ++ rest ->
   Forall (fun x => x = 0)
          (item_codes (uniform_case cfg tbl items (single_obs cfg tbl items)) (table_reader tbl) (length pre) rest).
 Proof.
-  induction rest as [|cmd rest IH]; intros pre H; [constructor|].
+  intro Hk3. induction rest as [|cmd rest IH]; intros pre H; [constructor|].
   cbn [item_codes]. constructor.
   - apply (item_code_uniform cfg tbl items pre cmd rest H).
+    apply Hk3. rewrite H. apply in_or_app. right. left. reflexivity.
   - specialize (IH (pre ++ [cmd])). rewrite app_length in IH. cbn [length] in IH.
     replace (length pre + 1)%nat with (S (length pre)) in IH by lia.
     apply IH. rewrite <- app_assoc. exact H.
@@ -220,18 +233,18 @@ Proof.
   rewrite IH, orb_false_r. apply N.eqb_neq. exact Hv.
 Qed.
 
-Lemma monitor_uniform cfg tbl items :
+Lemma monitor_uniform cfg tbl items : no_k3_P cfg tbl items ->
   C36_monitor (uniform_case cfg tbl items (single_obs cfg tbl items)) = 0.
 Proof.
-  unfold C36_monitor.
+  intro Hk3. unfold C36_monitor.
   assert (Hl : lengths_ok (uniform_case cfg tbl items (single_obs cfg tbl items)) = true).
   { unfold lengths_ok. apply forallb_forall. intros p Hp. rewrite path_obs_uniform by exact Hp.
     cbn [k_items uniform_case]. unfold single_obs. rewrite map_length. apply Nat.eqb_refl. }
   rewrite Hl. cbn [negb].
   cbn [k_table k_items uniform_case].
-  pose proof (item_codes_uniform cfg tbl items items [] eq_refl) as Hz. cbn [length] in Hz.
+  pose proof (item_codes_uniform cfg tbl items Hk3 items [] eq_refl) as Hz. cbn [length] in Hz.
   rewrite (existsb_zeros 1 _ ltac:(discriminate) Hz), (existsb_zeros 2 _ ltac:(discriminate) Hz),
-    (existsb_zeros 3 _ ltac:(discriminate) Hz). reflexivity.
+    (existsb_zeros 3 _ ltac:(discriminate) Hz), (existsb_zeros 4 _ ltac:(discriminate) Hz). reflexivity.
 Qed.
 
 Lemma mismatch_uniform cfg tbl items : no_divergence_P cfg tbl items ->
@@ -247,8 +260,8 @@ Qed.
 Lemma model_satisfies_monitor cfg tbl items : no_divergence cfg tbl items = true ->
   C36_monitor (model_case cfg tbl items) = 0 /\ C36_mismatch (model_case cfg tbl items) = false.
 Proof.
-  intro H. apply no_divergence_spec in H. split.
-  - rewrite (model_case_uniform cfg tbl items H). apply monitor_uniform.
+  intro H. apply no_divergence_spec in H. destruct H as [H Hk3]. split.
+  - rewrite (model_case_uniform cfg tbl items H). apply monitor_uniform. exact Hk3.
   - apply mismatch_uniform. exact H.
 Qed.
 
@@ -277,4 +290,11 @@ Lemma monitor_violation_example :
                  [(0, [Obs ReasonSendBan 0 None]); (1, [Obs ReasonSendBan 0 None]); (2, [Obs ReasonSendBan 0 None]);
                   (3, [Obs ReasonSendBan 0 None]); (4, [Obs ReasonSuccess 0 (Some (hs "g"))]);
                   (5, [Obs ReasonSendBan 0 None]); (6, [Obs ReasonSendBan 0 None]); (7, [Obs ReasonSendBan 0 None])]) = 1.
+Proof. vm_compute. reflexivity. Qed.
+
+(* all paths agree on SendBan for a disbanded group: the order of the code, not of the text *)
+Lemma monitor_k3_example :
+  C36_monitor (model_case k1_cfg [(chanRead (hs "a") channelTypePerson, RR true true false false false false false);
+                                  (chanRead (hs "g") channelTypeGroup, RR true false true true false false false)]
+                         [PCmd (hs "a") (hs "d") (hs "g") channelTypeGroup false false 0]) = 4.
 Proof. vm_compute. reflexivity. Qed.
